@@ -2,7 +2,8 @@
 //   driver <kind> <scripts.jsonl|-> <seed> <nexec> <nops> <nlong> <out.ndjson>      kind = cabinet | pool | fd | tag
 // First executes every script of <scripts.jsonl> (one JSON array of ops per line, produced by TLC from the Gen_* specs, or
 // extracted from a saved trace for --replay; "-" = none), then <nexec> seeded random histories of about <nops> operations (every
-// eighth one 8x longer) and, if <nlong> > 0, one history of <nlong> operations, all on the REAL templates/classes.  One ndjson event per call: the call, its arguments, what it returned and a cheap projection of the
+// eighth one 8x longer) and, if <nlong> > 0, one history of <nlong> operations, all on the REAL templates/classes.
+// One ndjson event per call: the call, its arguments, what it returned and a cheap projection of the
 // state after it (see each section).  Executions are separated by {"e":"Reset"}.  The trace is validated by TLC against
 // spec/Handles/Trace_*.tla; this program decides nothing.
 #include <vh.h>
@@ -161,12 +162,12 @@ static std::vector<Op> random_ops(vh::Rng &rng, int nops) {
 // ObjectPool
 // =====================================================================================================================
 namespace pool {
-static long long n_ctor = 0, n_dtor = 0;
+static long long n_ctor = 0, n_dtor = 0, n_damaged = 0;    // n_damaged: destructors that found their object overwritten
 static const void *last_ctor = nullptr, *last_dtor = nullptr;
 struct Big {
     unsigned long long magic; int v; char pad[44];
     explicit Big(int x) : magic(0xC0FFEE0000ull + (unsigned)x), v(x) { memset(pad, x, sizeof pad); ++n_ctor; last_ctor = this; }
-    ~Big() { ++n_dtor; last_dtor = this; magic = 0xDEAD; }
+    ~Big() { if (value() != v) ++n_damaged; ++n_dtor; last_dtor = this; magic = 0xDEAD; }
     int value() const { for (char ch : pad) if (ch != (char)v) return -2; return magic == 0xC0FFEE0000ull + (unsigned)v ? v : -1; }
 };
 struct Small {      // smaller than a pointer: the pool's block must still hold its free-list link
@@ -187,7 +188,7 @@ template <class P> struct R : Runner {
     std::unique_ptr<tbox::ObjectPool<P>> pl;
     std::vector<P *> obj;           // by allocation index j (1-based); nullptr once freed
     std::string post() {
-        std::string r = ",\"ctor\":" + S(n_ctor) + ",\"dtor\":" + S(n_dtor) + ",\"ca\":" + S(ix(last_ctor)) + ",\"da\":" + S(ix(last_dtor)) + ",\"vals\":[";
+        std::string r = ",\"ctor\":" + S(n_ctor) + ",\"dtor\":" + S(n_dtor) + ",\"ca\":" + S(ix(last_ctor)) + ",\"da\":" + S(ix(last_dtor)) + ",\"bad\":" + S(n_damaged) + ",\"vals\":[";
         bool first = true;
         for (P *p : obj) { if (!p) continue; if (!first) r += ','; first = false; r += "{\"a\":" + S(ix(p)) + ",\"v\":" + S(p->value()) + "}"; }
         return r + "]}";
@@ -222,7 +223,7 @@ template <class P> struct R : Runner {
     }
 };
 static void run_script(const std::vector<Op> &ops) {
-    n_ctor = n_dtor = 0; last_ctor = last_dtor = nullptr; addr_ix.clear();
+    n_ctor = n_dtor = n_damaged = 0; last_ctor = last_dtor = nullptr; addr_ix.clear();
     std::unique_ptr<Runner> r;
     for (const Op &op : ops) {
         if (!r) { if (op.e != "pnew") bad_script(op, "first op must be pnew"); if (op.ty == "small") r.reset(new R<Small>()); else r.reset(new R<Big>()); }
